@@ -62,6 +62,30 @@ Templates == {
   T("dodir-ext-blocked2", "dodir", "8", "--diroptions=\"-m u=rwx,g=rx,o=\"", <<"/blk/a", "/blk/b">>, FALSE, <<>>, "-", {""}),
   T("keepdir-ext", "keepdir", "8", "--diroptions=\"-m u=rwx,g=rx,o=\"", <<"/var/k">>, TRUE,
       <<P("I/var/k", "dir", M750), P("I/var/k/.keep_cat_pn-0", "file", M644)>>, "-", {""}),
+  \* ---- several targets through the external command, every success/failure pattern over the targets
+  \*      (destination groups are served in sorted order of the destination: a.txt < deep < sub < t.txt;
+  \*       a directory given to doexe/dolib.a cannot be installed: `install` omits it)
+  T("doexe-ext-fail-ok", "doexe", "8", "--dest=\"/opt/x\" --insoptions=\"-m0755 -C\"", <<"sub", "t.txt">>, FALSE, <<>>, "-", {""}),
+  T("doexe-ext-ok-fail", "doexe", "8", "--dest=\"/opt/x\" --insoptions=\"-m0755 -C\"", <<"a.txt", "sub">>, FALSE, <<>>, "-", {""}),
+  T("doexe-ext-ok-fail-ok", "doexe", "8", "--dest=\"/opt/x\" --insoptions=\"-m0755 -C\"", <<"a.txt", "sub", "t.txt">>, FALSE, <<>>, "-", {""}),
+  T("doexe-ext-fail-ok-ok", "doexe", "8", "--dest=\"/opt/x\" --insoptions=\"-m0755 -C\"", <<"t.txt", "sub/deep", "sub/x.txt">>, FALSE, <<>>, "-", {""}),
+  T("doexe-ext-fail-fail", "doexe", "8", "--dest=\"/opt/x\" --insoptions=\"-m0755 -C\"", <<"sub/deep", "sub">>, FALSE, <<>>, "-", {""}),
+  T("doexe-ext-ok-ok-ok", "doexe", "8", "--dest=\"/opt/x\" --insoptions=\"-m0755 -C\"", <<"a.txt", "b.txt", "t.txt">>, TRUE,
+      <<P("I/opt/x/a.txt", "file", M755), P("I/opt/x/b.txt", "file", M755), P("I/opt/x/t.txt", "file", M755)>>, "-", {""}),
+  T("dolib.a-ext-fail-ok", "dolib.a", "8", "--dest=\"/usr/lib\" --insoptions=\"-m u=rw,go=r\"", <<"sub", "t.txt">>, FALSE, <<>>, "-", {""}),
+  T("dolib.a-ext-ok-fail", "dolib.a", "8", "--dest=\"/usr/lib\" --insoptions=\"-m u=rw,go=r\"", <<"a.txt", "sub">>, FALSE, <<>>, "-", {""}),
+  T("doexe-fail-ok", "doexe", "8", "--dest=\"/opt/x\" --insoptions=\"-m0755\"", <<"sub", "t.txt">>, FALSE, <<>>, "-", {""}),
+  T("doexe-ok-fail", "doexe", "8", "--dest=\"/opt/x\" --insoptions=\"-m0755\"", <<"a.txt", "sub">>, FALSE, <<>>, "-", {""}),
+  \* install -d with several directories (blk is a regular file in the image)
+  T("dodir-ext-fail-ok", "dodir", "8", "--diroptions=\"-m u=rwx,g=rx,o=\"", <<"/blk/a", "/var/x">>, FALSE, <<>>, "-", {""}),
+  T("dodir-ext-ok-fail", "dodir", "8", "--diroptions=\"-m u=rwx,g=rx,o=\"", <<"/var/x", "/blk/a">>, FALSE, <<>>, "-", {""}),
+  T("dodir-ext-ok-fail-ok", "dodir", "8", "--diroptions=\"-m u=rwx,g=rx,o=\"", <<"/var/x", "/blk/a", "/var/y">>, FALSE, <<>>, "-", {""}),
+  T("dodir-ext-ok-ok", "dodir", "8", "--diroptions=\"-m u=rwx,g=rx,o=\"", <<"/var/x", "/var/y">>, TRUE,
+      <<P("I/var/x", "dir", M750), P("I/var/y", "dir", M750)>>, "-", {""}),
+  T("keepdir-ext-fail-ok", "keepdir", "8", "--diroptions=\"-m u=rwx,g=rx,o=\"", <<"/blk/a", "/var/k">>, FALSE, <<>>, "-", {""}),
+  T("keepdir-ext-ok-fail", "keepdir", "8", "--diroptions=\"-m u=rwx,g=rx,o=\"", <<"/var/k", "/blk/a">>, FALSE, <<>>, "-", {""}),
+  T("dodir-fail-ok", "dodir", "8", DIRS, <<"/blk/a", "/var/x">>, FALSE, <<>>, "-", {""}),
+  T("dodir-ok-fail", "dodir", "8", DIRS, <<"/var/x", "/blk/a">>, FALSE, <<>>, "-", {""}),
   \* ---- the other install wrappers
   T("dodir", "dodir", "8", DIRS, <<"/var/x", "/var/y">>, TRUE, <<P("I/var/x", "dir", M755), P("I/var/y", "dir", M755)>>, "-", {"", "makedirs", "chmod"}),
   T("dodir-blocked", "dodir", "8", DIRS, <<"/blk/a">>, FALSE, <<>>, "-", {""}),
